@@ -13,13 +13,16 @@ CONSTANTS MSG, TAG, R, W, CHUNK,          \* sizes (unit-scaled)
 
 C == [MSG |-> MSG, TAG |-> TAG, R |-> R, W |-> W, CHUNK |-> CHUNK]
 
-NoPlan == [kind |-> "none", i |-> 0, x |-> 0]
+Mk(k, i, x) == [kind |-> k, i |-> i, x |-> x,
+               ea |-> IF k = "replay" THEN i + x ELSE i,
+               ef |-> IF k = "replay" THEN i + x + 1 ELSE i]
+NoPlan == [kind |-> "none", i |-> 0, x |-> 0, ea |-> 0, ef |-> 0]
 Plans == {NoPlan} \cup
-  {[kind |-> k, i |-> i, x |-> 0] : k \in PlanKinds \cap {"body", "drop", "swap"}, i \in 1..MaxFrames} \cup
-  {[kind |-> "hdr", i |-> i, x |-> x] : i \in IF "hdr" \in PlanKinds THEN 1..MaxFrames ELSE {}, x \in 1..(MSG - 1)} \cup
-  {[kind |-> "trunc", i |-> i, x |-> x] : i \in IF "trunc" \in PlanKinds THEN 1..MaxFrames ELSE {}, x \in {1, 2}} \cup
-  {[kind |-> "cut", i |-> i, x |-> x] : i \in IF "cut" \in PlanKinds THEN 1..MaxFrames ELSE {}, x \in {0, 1, 2, 3}} \cup
-  {[kind |-> "replay", i |-> i, x |-> x] : i \in IF "replay" \in PlanKinds THEN 1..MaxFrames ELSE {}, x \in {0, 1}}
+  {Mk(k, i, 0) : k \in PlanKinds \cap {"body", "drop", "swap"}, i \in 1..MaxFrames} \cup
+  {Mk("hdr", i, x) : i \in IF "hdr" \in PlanKinds THEN 1..MaxFrames ELSE {}, x \in 1..(MSG - 1)} \cup
+  {Mk("trunc", i, x) : i \in IF "trunc" \in PlanKinds THEN 1..MaxFrames ELSE {}, x \in {1, 2}} \cup
+  {Mk("cut", i, x) : i \in IF "cut" \in PlanKinds THEN 1..MaxFrames ELSE {}, x \in {0, 1, 2, 3}} \cup
+  {Mk("replay", i, x) : i \in IF "replay" \in PlanKinds THEN 1..MaxFrames ELSE {}, x \in {0, 1}}
 
 VARIABLES I, P, ev, hist, nops, rp, npend, nw, wd
 vars == <<I, P, ev, hist, nops, rp, npend, nw, wd>>
@@ -79,16 +82,21 @@ StepOKKF == [][PropAccepts(C, P, ev') \/ KF1(ev')]_vars \* C02 modulo the record
 StateInv == PropInv(C, P)
 NoLoop == ev.e = "read" => ev.res # "loop"
 
-\* reachability probes (self-test: each must be reported violated, i.e. the situation is reachable)
-NeverAux == ~(I.D.rs = "data" /\ I.D.maxRead # Canon(C))
-NeverFit == ~(I.D.rs = "data" /\ I.D.cfs # None /\ I.D.maxRead = Canon(C))
-NeverCarry1 == ~(I.D.rs = "data" /\ I.D.nread = 1 /\ I.D.offset = 0 /\ I.D.taken > 1)
-NeverPartialFrame == I.D.pend = <<>>
-NeverWritePartial == ~(ev.e = "write" /\ ev.res = "ok" /\ ev.acc < ev.req)
-NeverWritePending == ~(ev.e = "write" /\ ev.res = "pending")
-NeverTwoBuffered == ~(I.Wr.writing /\ I.Wr.wlen > MSG + HDR)
-NeverTamperErr == ~(ev.e = "read" /\ ev.res = "err" /\ ~P.closed)
-NeverQuiesce == ~P.q
+\* reachability probes (self-test / evidence against vacuity): counts how many transitions reach
+\* each interesting situation; run with -workers 1
+ProbeConds == <<
+  I'.D.rs = "data" /\ I'.D.maxRead # Canon(C),                               \* 1 auxiliary tail in use
+  I'.D.rs = "data" /\ I'.D.cfs # None /\ I'.D.maxRead = Canon(C),            \* 2 frame continues inside the buffer
+  I'.D.rs = "data" /\ I'.D.nread = 1 /\ I'.D.offset = 0 /\ I'.D.taken > 1,   \* 3 one byte carried over
+  I'.D.pend # <<>>,                                                          \* 4 frame handed out in pieces
+  ev'.e = "write" /\ ev'.res = "ok" /\ ev'.acc < ev'.req,                    \* 5 partial accept
+  ev'.e = "write" /\ ev'.res = "pending",                                    \* 6 write Pending
+  I'.Wr.writing /\ I'.Wr.wlen > MSG + HDR,                                   \* 7 two frames buffered
+  ev'.e = "read" /\ ev'.res = "err" /\ ~P.closed,                            \* 8 error caused by an attack
+  P'.q >>                                                                    \* 9 quiescence
+Probe == \A i \in 1..9 : ProbeConds[i] => TLCSet(10 + i, TLCGet(10 + i) + 1)
+ProbeSpec == (Init /\ \A i \in 1..9 : TLCSet(10 + i, 0)) /\ [][Next]_vars
+ProbeReport == PrintT(<<"REACH", [i \in 1..9 |-> TLCGet(10 + i)]>>)
 
 View == <<I, P, rp, npend, nw, wd>>
 Emit == PrintT(<<"B", ToJson([cfg |-> C, plan |-> I.plan, ops |-> hist'])>>)
